@@ -20,8 +20,35 @@ class Attach:
         self.src, self.host, self.modname, self.text = src, host, modname, text
 
 
+class Group:
+    """a second set of harnesses that needs its own scratch copy (e.g. built against the dependency shims)"""
+    def __init__(self, attaches, harnesses, scalings=(), shims=None, jobs=8):
+        self.attaches, self.harnesses, self.scalings, self.shims, self.jobs = attaches, harnesses, scalings, shims, jobs
+
+
+def _prepare(sc, attaches, harnesses, scalings, shims):
+    if shims:
+        sc.use_shims(shims)
+    for s in scalings:
+        sc.scale(*s)
+    file_of_mod, modpath = {}, {}
+    for a in attaches:
+        if a.text is not None:
+            p = sc.add_harness_file(a.text, a.src, is_text=True)
+        else:
+            p = sc.add_harness_file(os.path.join(VERIF, "kani", a.src))
+        sc.attach(a.host, p, a.modname)
+        file_of_mod[a.src] = p
+        host = re.sub(r"^src/", "", a.host)
+        host = re.sub(r"(/mod)?\.rs$", "", host).replace("/", "::")
+        modpath[a.src] = (host + "::" if host != "lib" else "") + a.modname
+    for h in harnesses:
+        h.qual = modpath[h.group_file] + "::" + h.name
+    return file_of_mod
+
+
 def run_incrate(prop, tier, seed, only, attaches, harnesses, functions_encoded, assumptions, stubs, rule,
-                scalings=(), jobs=8, extra=None, package_args=None, shims=None):
+                scalings=(), jobs=8, extra=None, package_args=None, shims=None, groups=()):
     t0 = time.time()
     sc = Scratch(prop.lower())
     if shims:
@@ -44,15 +71,27 @@ def run_incrate(prop, tier, seed, only, attaches, harnesses, functions_encoded, 
     for h in harnesses:
         h.qual = modpath[h.group_file] + "::" + h.name
     hs = [h for h in harnesses if (not only or re.search(only, h.name))]
-    if not hs:
+    if not hs and not any(re.search(only or "", h.name) for g in groups for h in g.harnesses):
         raise Inconclusive("no harness selected")
     runner = KaniRunner(sc, sc.repo, jobs=jobs, package_args=package_args)
     results = runner.run_all(hs)
     out = Outcome()
     handle_results(prop, results, runner, sc, sc.repo, lambda h: file_of_mod[h.group_file], out, package_args=package_args)
+    all_scalings = list(sc.scalings)
+    for gi, g in enumerate(groups):
+        ghs = [h for h in g.harnesses if (not only or re.search(only, h.name))]
+        if not ghs:
+            continue
+        gsc = Scratch("%s_g%d" % (prop.lower(), gi + 2))
+        gfile = _prepare(gsc, g.attaches, g.harnesses, g.scalings, g.shims)
+        grunner = KaniRunner(gsc, gsc.repo, jobs=g.jobs, package_args=package_args)
+        gres = grunner.run_all(ghs)
+        handle_results(prop, gres, grunner, gsc, gsc.repo, lambda h: gfile[h.group_file], out, package_args=package_args)
+        all_scalings += [x for x in gsc.scalings if x not in all_scalings]
+        gsc.cleanup()
     if extra:
         extra(sc, out)
-    rc = finish(prop, tier, seed, out, t0, functions_encoded, assumptions, stubs, sc.scalings, rule)
+    rc = finish(prop, tier, seed, out, t0, functions_encoded, assumptions, stubs, all_scalings, rule)
     sc.cleanup()
     return rc
 
